@@ -64,7 +64,8 @@ def run_level_check(prop, tier, panel_names, level="model_checking", design_cfgs
     dstates = dtrans = 0
     dinfo = []
     if tier == "thorough" and design_cfgs:
-        design_cfgs = tuple(design_cfgs) + ("BadsRun_big.cfg",)     # D=2, Budget=12, NTry=3: ~5 M states
+        # D=2, Budget=12, NTry=3: ~5 M states; and the non-default incumbent policy (sloppy_improvement = False)
+        design_cfgs = tuple(design_cfgs) + ("BadsRun_big.cfg", "BadsRun_nosloppy.cfg")
     for cfg in design_cfgs:
         dm = design_model(cfg, timeout=2400 if "big" in cfg else 900)
         dinfo.append({k: dm[k] for k in ("cfg", "ok", "states", "distinct", "diameter", "violated", "wall_s")})
@@ -190,14 +191,14 @@ def _inductive(v, prop):
 
 
 def check_C03(tier):
-    v = run_level_check("C03", tier, ["core_det", "core_noisy", "cons", "optvar"],
+    v = run_level_check("C03", tier, ["core_det", "core_noisy", "cons", "optvar", "script"],
                         design_cfgs=("BadsRun.cfg", "BadsRun_noisy.cfg"))
     _inductive(v, "C03")
     return v
 
 
 def check_C04(tier):
-    return run_level_check("C04", tier, ["core_det", "cons", "optvar"], design_cfgs=("BadsRun.cfg",),
+    return run_level_check("C04", tier, ["core_det", "cons", "optvar", "script"], design_cfgs=("BadsRun.cfg",),
                            scenario_filter=lambda sc: sc["noise"]["mode"] == "det")
 
 
@@ -207,7 +208,7 @@ def check_C05(tier):
 
 
 def check_C13(tier):
-    v = run_level_check("C13", tier, ["core_det", "core_noisy", "optvar"],
+    v = run_level_check("C13", tier, ["core_det", "core_noisy", "optvar", "script"],
                         design_cfgs=("BadsRun.cfg", "BadsRun_noisy.cfg"))
     _inductive(v, "C13")
     return v
